@@ -63,6 +63,32 @@ def lean_eval_trace_terms(tt, model, term_ids):
     return r.stdout.split()
 
 
+def z3_validated_model(decls, logic_line, texts, extra_eval=()):
+    """ask z3 for a model of `texts` and validate it with the Lean evaluator; True / False (z3 has no model) / None"""
+    import re, modelcheck
+    script = "\n".join(["(set-logic ALL)"] + [d for d in decls] + [f"(assert {t})" for t in texts] + ["(check-sat)", "(get-model)"]) + "\n"
+    out = extsolve.z3_run(script, 10)
+    head = out.lstrip().split("\n", 1)[0].strip()
+    if head == "unsat":
+        return False
+    if head != "sat":
+        return None
+    body = re.sub(r"([A-Za-z_][A-Za-z0-9_]*)!val!(\d+)", r"(as @\2 \1)", out.split("\n", 1)[1])
+    try:
+        sx = smtlib.parse_sexps(body)[0]
+        sx = [d for d in sx if isinstance(d, list) and smtlib.sym(d[0]) == "define-fun"]
+        sc = smtlib.Script("\n".join([logic_line] + list(decls) + [f"(assert {t})" for t in texts]) + "\n")
+        ids = [a for name, a in sc.commands if name == "assert"]
+        ids = [a[0] if isinstance(a, tuple) else a for a in ids]
+        defs, probs = smtlib.parse_model(sc.table, sx)
+        if probs:
+            return None
+        vals = modelcheck.lean_eval(sc.table, list(sc.table.abstract.items()), defs, ids)
+    except Exception:
+        return None
+    return True if len(vals) == len(ids) + 1 and all(v == "b:true" for v in vals[:-1]) and vals[-1] == "wf" else None
+
+
 def value_smt(v, sort):
     if isinstance(v, bool):
         return "true" if v else "false"
@@ -71,6 +97,9 @@ def value_smt(v, sort):
 
 def run_case(args):
     idx, seed, binary = args
+    if isinstance(idx, str):
+        return compare(idx, "corpus", [], open(idx).read(), binary,
+                       next(l for l in open(idx).read().split("\n") if l.startswith("(set-logic")))
     rng = random.Random(f"c13-{seed}-{idx}")
     logic = LOGICS[idx % len(LOGICS)]
     opts = [[], [":do-substitutions false"], [":produce-interpolants true"], [":produce-unsat-cores true"]][idx % 4]
@@ -89,6 +118,17 @@ def run_case(args):
             f = b if c < 0.33 else (("app", "not", "Bool", [b]) if c < 0.36 else ("app", "=", "Bool", [b, p.fla(1)]))
         elif c < 0.45:
             f = ("var", "true", "Bool")
+        elif c < 0.6 and p.S == "U" and len(p.nums) >= 3:
+            # disjunctions of equality chains (what the transitivity learner looks at), full and half diamonds
+            def eq(a, b):
+                return ("app", "=", "Bool", [a, b])
+            pool = p.nums + [("uf", "f", "U", [v]) for v in p.nums[:2]] if p.uf else p.nums
+            a, b, d = rng.sample(pool, 3)
+            e, g = rng.choice(pool), rng.choice(pool)
+            second = rng.choice([[eq(a, e), eq(e, d)], [eq(g, e), eq(e, a)], [eq(d, e), eq(e, g)]])
+            f = ("app", "or", "Bool", [("app", "and", "Bool", [eq(a, b), eq(b, d)]), ("app", "and", "Bool", second)])
+            if rng.random() < 0.5:
+                lines.append(f"(assert (not {gen.smt(eq(a, d))}))")
         return f
 
     for _ in range(rng.randint(6, 16)):
@@ -108,6 +148,10 @@ def run_case(args):
             lines.append("(check-sat)")
     lines.append("(check-sat)")
     script = "\n".join(lines) + "\n"
+    return compare(idx, logic, opts, script, binary, p.set_logic())
+
+
+def compare(idx, logic, opts, script, binary, logic_line):
     tp = common.WORK / f"c13-{os.getpid()}.trace"
     tp.unlink(missing_ok=True)
     out, err, rc = runner.run_opensmt(binary, script, tp, timeout=20)
@@ -123,7 +167,6 @@ def run_case(args):
     S = tr.solvers[sid]
     tt = tr.logics[S.logic]
     decls = tt.declarations()
-    logic_line = p.set_logic()
     levels, active = [[]], []
     roots = {}                 # frame id -> list of root term idx
     seen_pairs = set()
@@ -169,6 +212,9 @@ def run_case(args):
                 res["models"] += 1
             # (2) the roots are satisfiable when the assertions are
             vA = decide(Atxt)
+            if vA != "sat-certified" and z3_validated_model(decls, logic_line, Atxt) is True:
+                res["stats"]["sat-by-z3-model-validated"] = res["stats"].get("sat-by-z3-model-validated", 0) + 1
+                vA = "sat-certified"               # a model proposed by z3, validated by the Lean evaluator
             if vA == "sat-certified":
                 vR = decide(Rtxt)
                 if vR.startswith("unsat"):
@@ -194,7 +240,8 @@ def run(tier):
     binary = common.opensmt_bin("hooks")
     n = 130 if tier == "quick" else 3000
     with mp.Pool(min(common.JOBS, 14)) as pool:
-        results = pool.map(run_case, [(i, chk.seed, binary) for i in range(n)], chunksize=2)
+        corpus = sorted(str(f) for f in (common.VERIF / "corpus" / "C13").glob("*.smt2"))
+        results = pool.map(run_case, [(i, chk.seed, binary) for i in corpus + list(range(n))], chunksize=2)
     checks = models = skipped = 0
     stats = {}
     for r in results:
